@@ -23,6 +23,12 @@ import (
 // per-trace counters fed by the verif hooks in alert/topics.go
 type tctx struct {
 	enq, done atomic.Int64
+	perTopic  sync.Map // real topic name -> *[2]atomic.Int64 {enq, done}
+}
+
+func (c *tctx) topic(name string) *[2]atomic.Int64 {
+	v, _ := c.perTopic.LoadOrStore(name, &[2]atomic.Int64{})
+	return v.(*[2]atomic.Int64)
 }
 
 var ctxs sync.Map // trace suffix -> *tctx
@@ -40,10 +46,12 @@ func InstallHooks(gate func(point string, args ...string)) {
 		switch point {
 		case "handler.enq":
 			if c, ok := ctxs.Load(suffix(args[0])); ok {
+				c.(*tctx).topic(args[0])[0].Add(1)
 				c.(*tctx).enq.Add(1)
 			}
 		case "handler.done":
 			if c, ok := ctxs.Load(suffix(args[0])); ok {
+				c.(*tctx).topic(args[0])[1].Add(1)
 				c.(*tctx).done.Add(1)
 			}
 		}
@@ -75,15 +83,28 @@ type Svc struct {
 	Diag  *rt.Diag
 }
 
-func NewSvc(persist bool) (*Svc, error) {
+func NewSvc(persist bool) (*Svc, error) { return NewSvcBuf(persist, 0) }
+
+// NewSvcBuf: topicBufLen is the length of every handler's queue (0 = the service's default).
+func NewSvcBuf(persist bool, topicBufLen int) (*Svc, error) { return newSvc(persist, topicBufLen, nil) }
+
+// NewSvcWrap: the alert service sees the storage through wrap (fault injection).
+func NewSvcWrap(persist bool, wrap func(*rt.BoltStore) alertservice.StorageService) (*Svc, error) {
+	return newSvc(persist, 0, wrap)
+}
+
+func newSvc(persist bool, topicBufLen int, wrap func(*rt.BoltStore) alertservice.StorageService) (*Svc, error) {
 	d := rt.NewDiag()
 	st, err := rt.NewBoltStore("", true, d)
 	if err != nil {
 		return nil, err
 	}
-	s := alertservice.NewService(rt.AlertDiag{D: d}, nil, 0)
+	s := alertservice.NewService(rt.AlertDiag{D: d}, nil, topicBufLen)
 	s.PersistTopics = persist
 	s.StorageService = st
+	if wrap != nil {
+		s.StorageService = wrap(st)
+	}
 	s.HTTPDService = &rt.FakeHTTPD{}
 	hp, _ := httppost.NewService(nil, rt.HTTPPostDiag{D: d})
 	s.HTTPPostService = hp
@@ -342,6 +363,22 @@ func (tr *Tr) Replace(h string, c Cfg) {
 }
 
 func (tr *Tr) Collect(topic, id string, lvl int, k int) { tr.CollectTag(topic, id, lvl, k, "none") }
+
+// collectNoObs: the collect and its trace line only (the caller decides how to wait and what to observe).
+func (tr *Tr) collectNoObs(topic, id string, lvl int, k int) {
+	if tr.dead {
+		return
+	}
+	ev := alert.Event{Topic: tr.real(topic), State: alert.EventState{ID: id, Level: alert.Level(lvl),
+		Time: rt.DefaultTime.T(k), Message: fmt.Sprintf("m%d", k)}}
+	ev.Data.Name, ev.Data.TaskName = "m", "tk"
+	if err := tr.svc.S.Collect(ev); err != nil {
+		// a full handler queue makes Collect report an error while the event is recorded and handed to everybody else
+		tr.t.Event("Collect", rt.M{"topic": topic, "id": id, "lvl": lvl, "err": 1})
+		return
+	}
+	tr.t.Event("Collect", rt.M{"topic": topic, "id": id, "lvl": lvl})
+}
 
 // CollectTag collects an event that carries tag host=<tag> ("none": no tag at all).
 func (tr *Tr) CollectTag(topic, id string, lvl int, k int, tag string) {
